@@ -168,6 +168,14 @@ CHECKS = {
         "domain nothing is compared.",
    technique="TLA+ specification of the functions as sequence operations + TLC trace validation of calls made by compiled driver programs",
    ref="§4 C17"),
+ "C18": dict(
+   text="FFI.tla states the C prototype of every generated extern signature (all of arity 0..1 over 11 parameter kinds x {value, Referenz} x 12 result kinds, moved results, arity 2 sampled/all, "
+        "a seeded sample of arity 3..6); the harness writes the C callee against exactly that prototype and the tree's headers. Callee observations (what it saw through the header structs), "
+        "the result and the caller's variables afterwards are one event per call (variables and temporaries as arguments, declaring and importing module, -O0/-O2, +-O1 thorough) validated by TLC "
+        "against FFI!Expected; the allocation ledger of whole driver runs is validated against Heap.tla (each argument released exactly once by the caller, results owned by the caller).",
+   note="Kinds: Zahl, Kommazahl, Byte, Wahrheitswert, Buchstabe, Text, Zahlen Liste, Text Liste, a Kombination with padding, Variable holding Zahl / Text. No Byte/Kommazahl/Variable lists, no generic externs.",
+   technique="TLA+ specification of the calling convention (prototype, visible effects, ownership) + TLC trace validation of generated C callees and DDP callers + ledger validation",
+   ref="§4 C18"),
 }
 PENDING = {}
 
